@@ -59,6 +59,16 @@ var c20Templates = []struct{ name, code string }{
 	{"member-K", "r = (%s.K) ?? \"E\""}, {"addr-member", "t = %s; p = &t; r = (p.k) ?? \"E\""}, {"addr-member-K", "t = %s; p = &t; r = (p.K) ?? \"E\""},
 	{"addr-deref", "t = %s; p = &t; r = (*p == t) ?? \"E\""},
 	// a field (or entry) assigned through a variable, and through a pointer to the variable, wherever the value came from
+	// a character (or more) stored into a string held by a variable: the same new string whether the variable's string sits in an
+	// addressable cell (read from a typed slot) or not
+	{"assign-strindex-multi", "t = %s; r = \"ok\"; try { t[1] = \"xyz\"; r = [t] } catch e { r = \"E\" }"},
+	{"assign-strindex-empty", "t = %s; r = \"ok\"; try { t[1] = \"\"; r = [t] } catch e { r = \"E\" }"},
+	{"assign-strindex-one", "t = %s; r = \"ok\"; try { t[0] = \"q\"; r = [t] } catch e { r = \"E\" }"},
+	{"assign-strindex-len", "t = %s; r = \"ok\"; try { t[len(t)] = \"xyz\"; r = [t] } catch e { r = \"E\" }"},
+	// the operand itself in target position: a field or an entry of it (an element store into a string needs a place to put the
+	// new string, which a temporary is not - that is about places, not about values, and is left out)
+	{"member-assign-direct", "r = \"ok\"; try { (%s).K = 9 } catch e { r = \"E\" }"},
+	{"member-assign-bare", "r = \"ok\"; try { %s.K = 9 } catch e { r = \"E\" }"},
 	{"assign-member-K", "t = %s; r = \"ok\"; try { t.K = 9; r = [t.K] } catch e { r = \"E\" }"},
 	{"addr-assign-member-K", "t = %s; p = &t; r = \"ok\"; try { p.K = 9; r = [p.K] } catch e { r = \"E\" }"},
 	{"delete-flag", "gq = 1; func() { delete(\"gq\", %s) }(); r = (gq ?? \"gone\")"},
@@ -141,6 +151,8 @@ var c20TypedNils = []struct{ name, lit string }{
 	{"nilptr", "make(struct { A *int64 }).A"}, {"nilmap", "make(struct { A map[string]int64 }).A"}, {"nilslice", "make(struct { A []int64 }).A"},
 	{"nilfunc", "make(struct { A func(int64) int64 }).A"}, {"niliface", "make(struct { A interface }).A"},
 	{"typedzero", "make(struct { A int32 }).A"}, {"emptystruct", "make(struct { A struct { B int64 } }).A"}, {"structval", "make(struct { K int64, L []int64 })"},
+	// strings that sit in an addressable cell: read from a typed slice element / a struct field
+	{"typedstr", "func() { a = make([]string, 1); a[0] = \"abc\"; return a[0] }()"}, {"fieldstr", "func() { s = make(struct { S string }); s.S = \"abc\"; return s.S }()"},
 }
 
 func c20TypedNilPrograms(sample *Rand) []c20Prog {
